@@ -13,6 +13,7 @@ THEOREMS = [
     "Mesa.Legacy.C08_empties_exact_built_or_not",
     "Mesa.Legacy.C08_emptiness_views",
     "Mesa.Legacy.C08_agents_view",
+    "Mesa.Legacy.C08_agents_whatever_truth_value",
     "Mesa.Legacy.C08_getitem_wraps_or_rejects",
     "Mesa.Legacy.C08_move_wraps_or_rejects",
     "Mesa.Legacy.C08_move_single_rejects_occupied",
